@@ -26,11 +26,17 @@ ShellStep(e) ==
 ShellSetStep(e) ==
   /\ ((e.r = "ok") <=> ShapeOK(e.c)) = TRUE
   /\ UNCHANGED vars
+\* the function count of a shell follows its angular momenta and kinds, also after they were re-assigned (no stale value)
+NbOf(ang, kinds) == IF KindsLegal([ang |-> ang, kinds |-> kinds]) THEN <<NBasis(ang, kinds)>> ELSE <<>>
+ShellNbStep(e) ==
+  /\ (e.nb1 = NbOf(e.ang, e.kinds) /\ e.nb2 = NbOf(e.ang2, e.kinds2) /\ e.nb3 = NbOf(e.ang2, e.kinds2)) = TRUE
+  /\ UNCHANGED vars
 Step ==
   /\ l <= Len(Traces[tid])
   /\ LET e == Traces[tid][l] IN
        IF e.op = "Shell" THEN ShellStep(e)
        ELSE IF e.op = "ShellSet" THEN ShellSetStep(e)
+       ELSE IF e.op = "ShellNb" THEN ShellNbStep(e)
        ELSE (l = 1) = (e.op = "New") /\ MoStep(e)
   /\ l' = l + 1 /\ UNCHANGED tid
   /\ TLCSet(tid, IF TLCGet(tid) < l THEN l ELSE TLCGet(tid))
